@@ -117,18 +117,45 @@ def cancellation_bound(n0, k, a, beta, z, uf):
     return float((n0 + beta) / (a * np.sqrt(max(al, 1e-300))) * dlog)
 
 
-def bracket_end_observables(rt):
-    """Mechanism observables of KF-*-basic-max-angle-nan, measured on the failing tracer: the numeric r-function of the
-    surface-side indirect ray at the very end of its root bracket (max_angle), a hair below it, and in the middle."""
+def bracket_end_observables(rt, error_text=""):
+    """Mechanism observables of KF-*-basic-max-angle-nan, measured on the failing tracer: the launch angle at which the root
+    finder met NaN (parsed from scipy's message), the ends of the root brackets (max_angle, peak_angle), and the numeric
+    r-functions of the direct and of the indirect ray at that angle and a hair below it."""
+    import re
     out = {}
     try:
-        ma = float(rt.max_angle)
-        out["r_at_max_angle"] = float(rt._indirect_r(ma))
-        out["r_just_below_max_angle"] = float(rt._indirect_r(ma * (1 - 1e-9)))
-        out["r_at_half_max_angle"] = float(rt._indirect_r(0.5 * ma))
+        m = re.search(r"x=([0-9.eE+-]+) is NaN", error_text or "")
+        x = float(m.group(1)) if m else float(rt.max_angle)
+        out["nan_at_angle"] = x
+        out["max_angle"] = float(rt.max_angle)
+        try:
+            out["peak_angle"] = None if rt.peak_angle is None else float(rt.peak_angle)
+        except Exception:       # noqa: BLE001
+            out["peak_angle"] = None
+        for name, fn in (("direct", rt._direct_r), ("indirect", rt._indirect_r)):
+            out["r_%s_at_that_angle" % name] = float(fn(x))
+            out["r_%s_just_below" % name] = float(fn(x * (1 - 1e-9)))
+            out["r_%s_at_half" % name] = float(fn(0.5 * x))
     except Exception as e:       # noqa: BLE001
         out["bracket_observables_error"] = type(e).__name__
     return out
+
+
+def nan_confined_to_bracket_end(d):
+    """The NaN the root finder met sits exactly on an end of a root bracket (max_angle or peak_angle), and the r-function that is
+    NaN there is finite a hair below it and in the middle of the bracket."""
+    import math
+    x = d.get("nan_at_angle")
+    if x is None:
+        return False
+    ends = [e for e in (d.get("max_angle"), d.get("peak_angle")) if e is not None]
+    if not any(abs(x - e) <= 1e-12 * max(1.0, abs(e)) for e in ends):
+        return False
+    for name in ("direct", "indirect"):
+        a_, b_, c_ = d.get("r_%s_at_that_angle" % name), d.get("r_%s_just_below" % name), d.get("r_%s_at_half" % name)
+        if a_ is not None and math.isnan(a_) and b_ is not None and math.isfinite(b_) and c_ is not None and math.isfinite(c_):
+            return True
+    return False
 
 
 def run_case(case):
@@ -188,7 +215,7 @@ def run_case(case):
         ex = bool(rt.exists)
     except Exception as e:
         if case["tracer"] == "basic":
-            geo.update(bracket_end_observables(rt))
+            geo.update(bracket_end_observables(rt, str(e)))
         v.check(False, "tracer reports solutions or none for in-range points (no exception)", error=type(e).__name__ + ": " + str(e)[:120], **geo)
         return v.result(decided=True, nontrivial=False, sample=geo)
     v.check(ex == (len(sols) > 0), "exists <=> the solution list is non-empty", exists=ex, n=len(sols), **geo)
@@ -380,9 +407,6 @@ def kf_basic_max_angle_nan(case, viol):
     """Numeric tracer: the root bracket for the surface-side indirect ray ends exactly at max_angle, where rounding can push
     sin(theta) at the surface above 1 and the numeric r-function returns NaN; brentq then raises."""
     d = viol["detail"]
-    import math
-    # measured: r is NaN exactly at the end of the bracket and finite (positive) a hair below it and in the middle of it
-    confined = ("r_at_max_angle" in d and math.isnan(d["r_at_max_angle"]) and math.isfinite(d.get("r_just_below_max_angle", float("nan")))
-                and math.isfinite(d.get("r_at_half_max_angle", float("nan"))) and d["r_at_half_max_angle"] > 0)
+    confined = nan_confined_to_bracket_end(d)
     return (d.get("tracer") == "basic" and viol["clause"].startswith("tracer reports solutions or none")
             and "NaN" in d.get("error", "") and not (d.get("sat0") and d.get("sat1")) and confined)
